@@ -363,6 +363,18 @@ func entryParser(rc *RunCtx) *Violation {
 			return viol("Parse-name-of-reader", fmt.Sprintf("Parse(\"\", reader named named.src) = %s but ParseString(\"named.src\") = %s", clip(inferred.desc(), 500), clip(want.desc(), 500)))
 		}
 		rc.fault("named")
+		// an explicit filename wins over the reader's own name
+		r3b := namedSimReader{newSimReader(rc, d, ends, readerOpts{}), "named.src"}
+		explicit := call(func() (interface{}, error) { return p.Parse(name, r3b) })
+		r3b.account(rc)
+		if !sameResult(pivot, explicit) {
+			return viol("Parse-explicit-filename-vs-reader-name", fmt.Sprintf("Parse(%q, reader named named.src) = %s but ParseString(%q) = %s", name, clip(explicit.desc(), 500), name, clip(pivot.desc(), 500)))
+		}
+		r3c := namedSimReader{newSimReader(rc, d, ends, readerOpts{}), "named.src"}
+		lexNamed := lexCall(func() ([]lexer.Token, error) { return p.Lex(name, r3c) })
+		if !sameResult(lexed, lexNamed) {
+			return viol("Parser.Lex-explicit-filename-vs-reader-name", fmt.Sprintf("Parser.Lex(%q, reader named named.src) = %s but over an unnamed reader = %s", name, clip(lexNamed.desc(), 400), clip(lexed.desc(), 400)))
+		}
 	}
 
 	// clause 2b: an empty filename and a reader without a name
@@ -591,6 +603,9 @@ func entryResume(rc *RunCtx, w *world, o buildOpts, dc *doc, viol func(string, s
 		}
 		if !pl.Peek().EOF() {
 			return nil, fmt.Errorf("lexer not at EOF after %d statements: %s", len(dc.stmts), pl.Peek().GoString())
+		}
+		if dc.stmtsRawEOF && !pl.RawPeek().EOF() {
+			return nil, fmt.Errorf("the last statement consumed the trailing elided tokens explicitly, yet the caller's lexer still has %s as its next raw token", pl.RawPeek().GoString())
 		}
 		return nil, nil
 	})
